@@ -84,7 +84,11 @@ def synth_cmap_fonts(rng, n, tmp):
                 break
         if rng.random() < 0.3 and (not groups or groups[-1][1] < 0x10FFFF):
             groups.append((0x10FFFF, 0x10FFFF, 7)); cps.append(0x10FFFF)
-        cmap = cmapgen.cmap_table([(3, 1, cmapgen.fmt4(segs)), (3, 10, cmapgen.fmt12(sorted(bmp_groups + groups)))])
+        if k % 8 == 5:
+            # no format 4 subtable at all: the BMP is only in format 12 (whether a face can be made must not depend on the options)
+            cmap = cmapgen.cmap_table([(3, 10, cmapgen.fmt12(sorted([(0x20, 0x7E, 3)] + groups)))])
+        else:
+            cmap = cmapgen.cmap_table([(3, 1, cmapgen.fmt4(segs)), (3, 10, cmapgen.fmt12(sorted(bmp_groups + groups)))], data_order=((1, 0) if k % 4 == 2 else None))
         p = os.path.join(tmp, 'cm%d.ttf' % k)
         open(p, 'wb').write(with_cmap(data, cmap))
         cps = sorted(set(c for c in cps if 0 < c <= 0x10FFFF and not 0xD800 <= c <= 0xDFFF))
